@@ -928,4 +928,12 @@ def run(ck):
     check_delta(ck, prog)
     check_stride(ck, prog)
     check_proto(ck, prog)
+    # a BCJ/delta coder that is re-used for the next Block starts from the given start offset / an empty history
+    from . import reinit
+    ck.rule("C15-INITCONS", "BCJ/delta coder members that the init function sets on some paths (now_pos, history, ...) are "
+                            "set on every path returning LZMA_OK")
+    prog_all = common.program(ck, ("liblzma",))
+    reinit.check_init_consistency(ck, prog_all, "C15-INITCONS", files={"simple_coder.c", "delta_common.c", "delta_encoder.c",
+                                                                       "delta_decoder.c"})
+    ck.floor("C15-INITCONS", 4)
     check_bits(ck, prog)
